@@ -302,6 +302,35 @@ func (c06Engine) Run(sci interface{}, ctx *RunCtx) *Finding {
 		case !failed && Canon(out.Out) != Canon(refV):
 			return &Finding{Class: "C06/wrong-value", Detail: fmt.Sprintf("budget %d: library returned %s, definition gives %s\nsource: %s", b, Canon(out.Out), Canon(refV), src)}
 		}
+		// The configuration changes while the run is in flight (another goroutine, or
+		// a function the expression calls, sets vm.MemoryBudget): the run is bound by
+		// the budget configured when it started. At the boundary budgets: raised to
+		// "unlimited" under a run that must fail, lowered to 1 under one that must
+		// succeed, at the first instruction and half-way.
+		if b >= T-1 && b <= T+1 && out.Steps > 1 {
+			for _, at := range []int{0, out.Steps / 2} {
+				to := 1
+				if shouldFail {
+					to = 1 << 40
+				}
+				vm.MemoryBudget = b
+				wf := NewWorld(false, nil, nil)
+				envf := BuildEnv(wf, sc.Env).AsRep(sc.Rep)
+				beginRun(-1, 0)
+				budgetFlipAt, budgetFlipTo = at, to
+				o := sutRun(machine, prog, envf)
+				budgetFlipAt = -1
+				ctx.Eval()
+				ctx.Count("budget_changed_mid_run", 1)
+				if o.Panicked {
+					return &Finding{Class: "C06/panic-escaped", Detail: "a panic escaped: " + o.PanicVal + "\nsource: " + src}
+				}
+				if (o.Err != nil) != shouldFail {
+					return &Finding{Class: "C06/budget-changed-mid-run-takes-effect", Detail: fmt.Sprintf("budget %d when the run started, set to %d at instruction %d of %d: %s; under the budget it started with the run %s (evaluation creates %d elements)\nsource: %s\nenv: %s\noptimize=%v",
+						b, to, at, out.Steps, outcomeText(o), map[bool]string{true: "must fail", false: "must succeed"}[shouldFail], T, src, sc.Env, sc.Optimize)}
+				}
+			}
+		}
 	}
 	ctx.Sample(map[string]interface{}{"source": src, "allocation_trace": ref.Allocs, "total": T, "budgets": sc.Budgets, "optimize": sc.Optimize})
 	return nil
